@@ -212,13 +212,22 @@ def Atom.preOk : Atom → Bool
   | .capture _ _ | .guard _ | .reject _ => true
   | _ => false
 
+/-- the arguments whose truth a `reject (arg i)` among the statements has refuted once the method is
+past them -/
+def refutedArgs : List Atom → List Nat
+  | [] => []
+  | .reject (.arg i) :: r => i :: refutedArgs r
+  | _ :: r => refutedArgs r
+
 /-- between will and did: anything that neither stops the method, nor brackets holds, nor posts
-another will -/
-def Atom.midOk : Atom → Bool
+another will; a `reject (arg i)` is allowed when the same argument was already refuted before the
+will (arguments do not change: the repeated check cannot fire) -/
+def Atom.midOk (refuted : List Nat) : Atom → Bool
+  | .reject (.arg i) => decide (i ∈ refuted)
   | .guard _ | .reject _ | .hold | .release => false
   | .post _ k _ _ _ _ => k ≠ .will
-  | .when _ a => a.midOk
-  | .nested a => a.midOk
+  | .when _ a => a.midOk refuted
+  | .nested a => a.midOk refuted
   | _ => true
 
 /-- after the did: nothing that changes the store, brackets holds or posts another will -/
@@ -239,7 +248,8 @@ def straightWD (as : List Atom) : Bool :=
   | .post w .will _ _ _ _ :: rest =>
     match rest.dropWhile (fun a => !a.isDidPost) with
     | .post d .did _ _ _ _ :: suf =>
-      (rest.takeWhile (fun a => !a.isDidPost)).all Atom.midOk && suf.all Atom.sufOk && didOf w == some d
+      (rest.takeWhile (fun a => !a.isDidPost)).all (Atom.midOk (refutedArgs (as.takeWhile Atom.preOk))) &&
+        suf.all Atom.sufOk && didOf w == some d
     | _ => false
   | _ => false
 
